@@ -846,7 +846,9 @@ def _archives(tier, rng):
         for combo in itertools.product(range(len(contents)), repeat=n):
             if tier == "quick" and n == 3 and rng.random() > 0.12:
                 continue
-            yield [(names[i], contents[c], 1000 + i, 10 * i, 7 + i, b"100644") for i, c in enumerate(combo)]
+            # header fields of every width, including ones that fill all their columns (12 / 6 / 6 digits)
+            yield [(names[i], contents[c], (1000 + i, 999999999999, 0)[(i + n) % 3], (10 * i, 999999, 165536)[(i + c) % 3],
+                    (7 + i, 123456, 0)[(c + n) % 3], b"100644") for i, c in enumerate(combo)]
 
 
 class _NamedBytesIO(io.BytesIO):
